@@ -31,36 +31,61 @@ TRUSTED = ['float64 evaluation of compute_area on integer-valued coordinates is 
            '(validated: 2*area integral and equal to the model on every case)',
            'float summation / sqrt rounding of compute_line_length is outside the model: '
            'validated to 1e-12 relative against math.fsum of math.sqrt of the model\'s terms',
-           'pyarrow buffers() export (harness/common.py export_listarr, harness/c14_util.py)']
+           'pyarrow buffers() of arr.__arrow_array__() (harness/c14_util.py export_la / decode)']
 
 IMPORTS = 'Model.Num Model.Arrow Model.Measures Spec.MeasuresSpec Proofs.MeasuresMapProofs'
-# wf_listarr and even_inner are the guards of the theorems: asserted on every real array
-ARR_FN = "fun '(k, a) => if wf_listarr a && even_inner a then Some (arr_measures k a) else None"
-ARR_TY = 'kind * listarr'
+# Only PUBLIC observations can raise an alarm: .length / .area / .boundary of arrays and of
+# arr[i] / directly built scalars, len / dtype / class, and the buffers of
+# arr.__arrow_array__() of the INPUT arrays (fed to the model) and of result arrays (DECODED:
+# elements and missing mask, never the buffer layout).  Buffer layouts of results and the
+# private `.listarray` of scalars are optional internal extras (counted, never reported).
+# wf_listarr and even_inner are the guards of the theorems: asserted on every real array.
+# Areas are compared only on rows inside the property's scope (every ring finite and closed);
+# elsewhere (unclosed / NaN-vertex rings) both sides are masked.
+ARR_FN = ("fun '(k, a, mask) => if wf_listarr a && even_inner a "
+          "then Some (arr_length k a, mask_num mask (arr_area k a)) else None")
+ARR_TY = 'kind * listarr * list bool'
 ARR_RES = 'option (list (option lenres) * list num)'
-SC_FN = ("fun '(k, s) => if sc_wf s && all_even (sc_inner_offsets s) then Some (sc_measures k s) "
-         "else None")
+ARR_INT_FN = "fun '(k, a) => arr_area k a"
+SC_FN = ("fun '(k, s, inscope) => if sc_wf s && all_even (sc_inner_offsets s) "
+         "then Some (sc_length k s, if inscope : bool then sc_area k s else None) else None")
+SC_TY = 'kind * listarr * bool'
 SC_RES = 'option (lenres * num)'
+SC_INT_FN = "fun '(k, s) => sc_measures k s"
 PT_FN = 'fun a => if wf_fixarr a then Some (pt_measures a) else None'
-BD_FN = ("fun '(k, a, b) => eqbc (la_view (match k with KPolygon => polygon_boundary a "
-         "| _ => multipolygon_boundary a end)) (la_view b)")
-BD_TY = 'kind * listarr * listarr'
-SB_FN = ("fun '(k, s, b) => eqbc (sc_view (match k with KPolygon => sc_polygon_boundary s "
-         "| _ => sc_multipolygon_boundary s end)) (sc_view b)")
+DEC = 'list (option (list (list (list num))))'
+BD_FN = ("fun '(k, a) => if wf_listarr a && even_inner a then Some (decode_elems KMultiLine "
+         "(match k with KPolygon => polygon_boundary a | _ => multipolygon_boundary a end)) else None")
+BD_INT_FN = ("fun '(k, a, b) => eqbc (la_view (match k with KPolygon => polygon_boundary a "
+             "| _ => multipolygon_boundary a end)) (la_view b)")
+SB_FN = ("fun '(k, s) => sc_rings (match k with KPolygon => sc_polygon_boundary s "
+         "| _ => sc_multipolygon_boundary s end)")
+SB_INT_FN = ("fun '(k, s, b) => eqbc (sc_view (match k with KPolygon => sc_polygon_boundary s "
+             "| _ => sc_multipolygon_boundary s end)) (sc_view b)")
 
 
 class Ctx:
     def __init__(self):
         self.arr = U.Batch(IMPORTS, ARR_FN, ARR_TY, ARR_RES)
-        self.sc = U.Batch(IMPORTS, SC_FN, ARR_TY, SC_RES)
+        self.sc = U.Batch(IMPORTS, SC_FN, SC_TY, SC_RES)
         self.pt = U.Batch(IMPORTS, PT_FN, 'fixarr', ARR_RES)
-        self.bd = U.Batch(IMPORTS, BD_FN, BD_TY, 'bool')
-        self.sb = U.Batch(IMPORTS, SB_FN, BD_TY, 'bool')
+        self.bd = U.Batch(IMPORTS, BD_FN, 'kind * listarr', f'option ({DEC})')
+        self.sb = U.Batch(IMPORTS, SB_FN, 'kind * listarr', 'list (list num)')
+        # optional internal extras
+        self.arr_int = U.Batch(IMPORTS, ARR_INT_FN, 'kind * listarr', 'list num',
+                               internal='area-out-of-scope-rows')
+        self.sc_int = U.Batch(IMPORTS, SC_INT_FN, 'kind * listarr', 'lenres * num',
+                              internal='scalar-listarray')
+        self.bd_int = U.Batch(IMPORTS, BD_INT_FN, 'kind * listarr * listarr', 'bool',
+                              internal='boundary-buffer-layout')
+        self.sb_int = U.Batch(IMPORTS, SB_INT_FN, 'kind * listarr * listarr', 'bool',
+                              internal='scalar-boundary-buffer-layout')
         self.seen_scalars = set()
 
     def flush(self, rep):
         n = 0
-        for b in (self.arr, self.sc, self.pt, self.bd, self.sb):
+        for b in (self.arr, self.sc, self.pt, self.bd, self.sb,
+                  self.arr_int, self.sc_int, self.bd_int, self.sb_int):
             n += b.flush(rep)
         return n
 
@@ -69,6 +94,24 @@ def _same(a, b):
     a = np.asarray(a, dtype='float64')
     b = np.asarray(b, dtype='float64')
     return a.shape == b.shape and bool(np.all((a == b) | (np.isnan(a) & np.isnan(b))))
+
+
+def _near(a, b):
+    """lengths: equal, both NaN, or within the property's 1e-12 relative (two correct float
+    evaluations may sum in different orders)"""
+    a = np.asarray(a, dtype='float64')
+    b = np.asarray(b, dtype='float64')
+    if a.shape != b.shape:
+        return False
+    with np.errstate(invalid='ignore'):
+        ok = (a == b) | (np.isnan(a) & np.isnan(b)) | \
+             (np.abs(a - b) <= 2e-12 * np.maximum(np.abs(a), np.abs(b)))
+    return bool(np.all(ok))
+
+
+def area_in_scope(rs):
+    """rows on which the property speaks about areas: every ring finite and closed"""
+    return rs is None or all(U.closed_finite(r) for r in rs)
 
 
 def length_result(rep, f, rings, kind, st, meta, form):
@@ -97,14 +140,15 @@ def length_result(rep, f, rings, kind, st, meta, form):
     return C.Some((terms, None))
 
 
-def area_result(rep, a, kind, meta, form):
+def area_result(rep, a, kind, meta, form, strict=True):
     a = float(a)
     if not math.isfinite(a):
         return None
     d = 2.0 * a
     if d != int(d):
-        rep.violation(f'area-differs:{kind}', f'{kind} {form} area {a!r}: 2*area is not an integer '
-                      f'on integer coordinates', {**meta, 'impl_area': a})
+        if strict:
+            rep.violation(f'area-differs:{kind}', f'{kind} {form} area {a!r}: 2*area is not an '
+                          f'integer on integer coordinates', {**meta, 'impl_area': a})
         return C.Some(0)
     return C.Some(int(d))
 
@@ -120,38 +164,44 @@ def check_array(rep, ctx, kind, st, els, nder=0, desc=None, extras=True):
     if desc is None:
         arr, desc = G.derive(rng, arr, nder)
     meta = {'kind': kind, 'subtype': st, 'elements': els, 'derivation': desc}
-    if str(arr.data.type) == 'null':
+    pa_arr = U.pa_of(arr)
+    if str(pa_arr.type) == 'null':
         rep.count('null_typed_skipped')
         return
     rep.evaluations += 1
     rep.count(kind)
     if desc:
         rep.count('derived')
-    # ---- point arrays: zeros
+    # ---- point arrays: zeros, NaN for missing
     if kind == 'point':
         try:
             L, A = np.asarray(arr.length), np.asarray(arr.area)
+            isna = [bool(x) for x in arr.isna()]
         except Exception as e:
-            rep.violation(f'raises:{kind}:{type(e).__name__}', f'{kind} length/area raised: {e}', meta)
+            rep.violation(f'raises:{kind}:{type(e).__name__}', f'{kind} length/area raised', meta)
             return
         res = C.Some(([length_result(rep, v, None, kind, st, meta, 'array') for v in L],
                       [area_result(rep, v, kind, meta, 'array') for v in A]))
-        ctx.pt.add(C.export_fixarr(arr), res, f'measures-differ:{kind}',
+        rec = C.Rec('Build_fixarr', C.Nat(0), C.Nat(len(arr)), C.Some([not x for x in isna]),
+                    [C.Some(0)] * (2 * len(arr)))
+        ctx.pt.add(rec, res, f'measures-differ:{kind}',
                    f'{kind} array length/area differ from the model', meta)
         for i in range(len(arr)):
             e = arr[i]
+            if (e is None) != isna[i]:
+                rep.violation('isna-differs:point', 'arr[i] is None disagrees with isna()', meta)
             if e is not None and not (e.length == 0.0 and e.area == 0.0):
                 rep.violation('measures-differ:point-scalar', 'Point.length/area not 0', meta)
         return
     try:
-        rec = C.export_listarr(arr)
+        rec = U.export_la(arr)
     except ValueError:
         rep.count('null_typed_skipped')
         return
     dec = U.decode(arr)
     if any(d is None for d in dec):
         rep.count('has_missing')
-    if arr.data.offset:
+    if pa_arr.offset:
         rep.count('nonzero_offset')
     if any(G.has_nonfinite(d) for d in dec):
         rep.count('has_nonfinite')
@@ -160,22 +210,26 @@ def check_array(rep, ctx, kind, st, els, nder=0, desc=None, extras=True):
     try:
         L, A = np.asarray(arr.length), np.asarray(arr.area)
     except Exception as e:
-        rep.violation(f'raises:{kind}:{type(e).__name__}', f'{kind} length/area raised: {e}', meta)
+        rep.violation(f'raises:{kind}:{type(e).__name__}', f'{kind} length/area raised', meta)
         return
     if len(L) != len(arr) or len(A) != len(arr) or L.dtype != np.float64 or A.dtype != np.float64:
         rep.violation(f'measures-shape:{kind}', 'length/area not float64 arrays of len(self)', meta)
         return
     rings = [U.rings_of(kind, d) for d in dec]
-    res = C.Some(([length_result(rep, L[i], rings[i], kind, st, meta, 'array') for i in range(len(arr))],
-                  [area_result(rep, A[i], kind, meta, 'array') for i in range(len(arr))]))
-    ctx.arr.add((K, rec), res, f'measures-differ:{kind}',
-                f'{kind} array length/area differ from the model', meta)
+    scope = [area_in_scope(rs) for rs in rings]
+    lres = [length_result(rep, L[i], rings[i], kind, st, meta, 'array') for i in range(len(arr))]
+    ares = [area_result(rep, A[i], kind, meta, 'array', strict=scope[i]) for i in range(len(arr))]
+    ctx.arr.add((K, rec, scope), C.Some((lres, [a if m else None for a, m in zip(ares, scope)])),
+                f'measures-differ:{kind}', f'{kind} array length/area differ from the model', meta)
+    if not all(scope):
+        rep.count('rows_outside_area_scope', scope.count(False))
+        ctx.arr_int.add((K, rec), ares, '', '', meta)
     if any(r and any(len(x) >= 4 for x in r) for r in rings if r is not None):
         rep.nontrivial((kind, st, repr(rec)))
     # independent oracle for areas of closed finite rings (Python integers)
     if kind in ('polygon', 'multipolygon'):
         for i, rs in enumerate(rings):
-            if rs is not None and all(U.closed_finite(r) for r in rs):
+            if rs is not None and scope[i]:
                 want = sum(U.shoelace2(r) for r in rs)
                 if not (math.isfinite(A[i]) and 2 * A[i] == want):
                     rep.violation(f'area-not-shoelace:{kind}',
@@ -186,7 +240,7 @@ def check_array(rep, ctx, kind, st, els, nder=0, desc=None, extras=True):
         try:
             e = arr[i]
         except Exception as ex:
-            rep.violation(f'raises:{kind}-getitem:{type(ex).__name__}', str(ex)[:200], meta)
+            rep.violation(f'raises:{kind}-getitem:{type(ex).__name__}', 'arr[i] raised', meta)
             continue
         if (e is None) != (dec[i] is None):
             rep.violation(f'isna-differs:{kind}', 'arr[i] is None disagrees with the validity bitmap',
@@ -206,26 +260,25 @@ def check_array(rep, ctx, kind, st, els, nder=0, desc=None, extras=True):
     dx, dy = rng.randint(-7, 7), rng.randint(-7, 7)
     try:
         arr2 = G.make_array(kind, [U.translate(d, dx, dy) for d in dec], st)
-        if str(arr2.data.type) != 'null':
-            # the area of an unclosed ring is not translation invariant (area_unclosed_refuted):
-            # compare areas only for the rows whose rings are all closed
-            closed = np.array([rs is None or all(U.closed_finite(r) or len(r) < 6 for r in rs)
-                               for rs in rings], dtype=bool)
-            A2 = np.where(closed, np.asarray(arr2.area), A)
-            if not (_same(arr2.length, L) and _same(A2, A)):
-                rep.violation(f'translate-changes:{kind}',
-                              f'{kind} length/area change under translation by ({dx},{dy})',
-                              {**meta, 'shift': [dx, dy], 'before': [list(L), list(A)],
-                               'after': [list(arr2.length), list(arr2.area)]})
-            rep.count('translated')
     except Exception as ex:
         rep.count('translate_error:' + type(ex).__name__)
+        arr2 = None
+    if arr2 is not None and str(U.pa_of(arr2).type) != 'null':
+        # the area of an unclosed ring is not translation invariant (area_unclosed_refuted):
+        # compare areas only on the rows inside the scope
+        A2 = np.where(np.array(scope, dtype=bool), np.asarray(arr2.area), A)
+        if not (_near(arr2.length, L) and _same(A2, A)):
+            rep.violation(f'translate-changes:{kind}',
+                          f'{kind} length/area change under translation by ({dx},{dy})',
+                          {**meta, 'shift': [dx, dy], 'before': [list(L), list(A)],
+                           'after': [list(arr2.length), list(arr2.area)]})
+        rep.count('translated')
     # ---- GeoSeries
     if rep.evaluations % 5 == 0:
         from spatialpandas import GeoSeries
         s = GeoSeries(arr, index=list(range(7, 7 + len(arr))))
         sa, sl = s.area, s.length
-        if not (_same(sa.values, A) and _same(sl.values, L) and list(sa.index) == list(s.index)
+        if not (_same(sa.values, A) and _near(sl.values, L) and list(sa.index) == list(s.index)
                 and list(sl.index) == list(s.index)):
             rep.violation(f'agree:series:{kind}', 'GeoSeries.area/length differ from the array\'s', meta)
         rep.count('series_agree')
@@ -236,29 +289,41 @@ def check_scalar(rep, ctx, kind, e, d, meta, arr_len=None, arr_area=None):
     try:
         l, a = e.length, e.area
     except Exception as ex:
-        rep.violation(f'raises:{kind}-scalar:{type(ex).__name__}', str(ex)[:200], meta)
+        rep.violation(f'raises:{kind}-scalar:{type(ex).__name__}', 'scalar length/area raised', meta)
         return
     rs = U.rings_of(kind, d)
+    inscope = area_in_scope(rs)
     lres = length_result(rep, l, rs, kind, 'float64', meta, 'scalar')
-    ares = area_result(rep, a, kind, meta, 'scalar')
+    ares = area_result(rep, a, kind, meta, 'scalar', strict=inscope)
     if arr_len is not None:
-        # scalar and array forms agree exactly (same kernel, same float64 operations)
-        if not (_same(a, arr_area) and _same(l, arr_len)):
+        # scalar and array forms agree (areas: on the rows inside the scope)
+        if not (_near(l, arr_len) and (_same(a, arr_area) or not inscope)):
             rep.violation(f'scalar-array-differ:{kind}',
                           f'{kind}: arr[i].length/area ({l!r}, {a!r}) != arr.length/area[i] '
                           f'({arr_len!r}, {arr_area!r})', meta)
     rep.count('scalar')
-    # the scalar is rebuilt from Python values: identical (kind, element) pairs give identical
-    # scalars whatever array they came from; evaluate the model once per distinct one
+    # a scalar holds the element's own nested lists: identical (kind, element) pairs give
+    # identical scalars whatever array they came from; evaluate the model once per distinct one
     key = (kind, meta['subtype'].startswith('float'), repr(d))
     if key in ctx.seen_scalars:
         return
     ctx.seen_scalars.add(key)
-    ctx.sc.add((K, U.export_scalar(e)), C.Some((lres.v if lres is not None else ([], None), ares)),
+    fresh = U.fresh_scalar(kind, d)
+    ctx.sc.add((K, fresh, inscope),
+               C.Some((lres.v if lres is not None else ([], None), ares if inscope else None)),
                f'measures-differ:{kind}-scalar', f'{kind} scalar length/area differ from the model',
                meta)
+    # optional: the model's transcription of the private buffer arithmetic on the scalar's own buffers
+    srec = None
+    try:
+        if len(ctx.seen_scalars) % 3 == 0:      # a third of the distinct scalars
+            srec = U.export_scalar_internal(e)
+        if srec is not None:
+            ctx.sc_int.add((K, srec), (lres.v if lres is not None else ([], None), ares), '', '', meta)
+    except Exception:
+        rep.count('internal-unavailable:scalar-listarray')
     if kind in ('polygon', 'multipolygon'):
-        from spatialpandas.geometry import MultiLine
+        from spatialpandas.geometry import MultiLine, MultiLineArray
         try:
             eb = e.boundary
         except Exception as ex:
@@ -269,53 +334,79 @@ def check_scalar(rep, ctx, kind, e, d, meta, arr_len=None, arr_area=None):
         if not isinstance(eb, MultiLine):
             rep.violation(f'boundary-type:{kind}-scalar', 'scalar boundary is not a MultiLine', meta)
             return
-        got = eb.data.as_py()
-        if not _nan_equal(got, rs) or not _same(eb.length, l):
-            rep.violation(f'boundary-rings:{kind}-scalar', 'scalar boundary does not hold exactly '
-                          'the element\'s rings, or its length differs',
-                          {**meta, 'boundary': got, 'boundary_length': float(eb.length)})
-        ctx.sb.add((K, U.export_scalar(e), U.export_scalar(eb)), True,
-                   f'boundary-differs:{kind}-scalar',
-                   f'{kind} scalar boundary buffers differ from the model', meta)
+        public = True
+        try:
+            got = U.decode(MultiLineArray([eb]))[0]     # public: the scalar put in an array
+        except Exception:
+            # the array constructors reject some scalars with only empty lines; fall back to the
+            # scalar's pyarrow value (not part of the public surface: counted, not reported)
+            public = False
+            rep.count('scalar-boundary-not-wrappable')
+            try:
+                got = eb.data.as_py()
+            except Exception:
+                got = None
+                rep.count('internal-unavailable:scalar-data')
+        if not _near(eb.length, l):
+            rep.violation(f'boundary-length:{kind}-scalar', 'length(scalar boundary) != scalar length',
+                          {**meta, 'boundary_length': float(eb.length), 'length': float(l)})
+        elif got is None and not public:
+            pass
+        elif got is None or not _nan_equal(got, rs):
+            if public:
+                rep.violation(f'boundary-rings:{kind}-scalar', 'scalar boundary does not hold exactly '
+                              'the element\'s rings', {**meta, 'boundary': got})
+            else:
+                rep.count('internal-differs-public-agrees:scalar-boundary-content')
+        else:
+            ctx.sb.add((K, fresh), [[U._num_of(v) for v in r] for r in got],
+                       f'boundary-differs:{kind}-scalar',
+                       f'{kind} scalar boundary rings differ from the model', meta)
+        try:
+            if srec is not None:
+                ctx.sb_int.add((K, srec, U.export_scalar_internal(eb)), True, '', '', meta)
+        except Exception:
+            rep.count('internal-unavailable:scalar-listarray')
         rep.count('scalar_boundary')
 
 
 def check_boundary(rep, ctx, kind, arr, rec, dec, L, meta):
-    from spatialpandas.geometry import MultiLine, MultiLineArray
+    from spatialpandas.geometry import MultiLineArray
     K = C.Raw(U.KIND_CTOR[kind])
     try:
         b = arr.boundary
     except Exception as ex:
-        rep.violation(f'raises:{kind}-boundary:{type(ex).__name__}', str(ex)[:200], meta)
+        rep.violation(f'raises:{kind}-boundary:{type(ex).__name__}', 'boundary raised', meta)
         return
     if not isinstance(b, MultiLineArray) or len(b) != len(arr):
         rep.violation(f'boundary-type:{kind}', 'boundary is not a MultiLineArray of the same length', meta)
         return
-    try:
-        brec = C.export_listarr(b)
-    except ValueError:
+    if str(U.pa_of(b).type) == 'null' or U.is_null_typed(U.pa_of(b)):
         rep.count('null_typed_skipped')
         return
-    ctx.bd.add((K, rec, brec), True, f'boundary-differs:{kind}',
-               f'{kind} array boundary buffers differ from the model', meta)
     bdec = U.decode(b)
     want = [U.rings_of(kind, d) for d in dec]
-    if bdec != want and not _nan_equal(bdec, want):
+    if not _nan_equal(bdec, want):
         rep.violation(f'boundary-rings:{kind}', 'boundary does not hold exactly the rings '
                       '(missing must stay missing)', {**meta, 'boundary': bdec})
-    if not _same(b.length, L):
+    elif str(b.dtype) != str(arr.dtype).replace(kind, 'multiline'):
+        rep.violation(f'boundary-dtype:{kind}', f'boundary dtype {b.dtype} for {arr.dtype}', meta)
+    else:
+        # the model's boundary decodes to the same elements (whatever buffers the library built)
+        ctx.bd.add((K, rec), C.Some(U.coq_decoded('multiline', bdec)), f'boundary-differs:{kind}',
+                   f'{kind} array boundary elements differ from the model', meta)
+    if not _near(b.length, L):
         rep.violation(f'boundary-length:{kind}', 'length(boundary) != length',
                       {**meta, 'boundary_length': list(b.length), 'length': list(L)})
     rep.count('boundary')
+    try:
+        ctx.bd_int.add((K, rec, U.export_la(b)), True, '', '', meta)
+    except Exception:
+        rep.count('internal-unavailable:boundary-buffer-layout')
 
 
 def _nan_equal(a, b):
-    if isinstance(a, list) and isinstance(b, list):
-        return len(a) == len(b) and all(_nan_equal(x, y) for x, y in zip(a, b))
-    if a is None or b is None or isinstance(a, list) or isinstance(b, list):
-        return a is None and b is None
-    fa, fb = float(a), float(b)
-    return fa == fb or (math.isnan(fa) and math.isnan(fb))
+    return U._nan_eq(a, b)
 
 
 # ---------------------------------------------------------------------------
@@ -466,7 +557,9 @@ def run(rep):
     ctx.flush(rep)
     rep.extra['coq_cases'] = {'array': len(ctx.arr.cases), 'scalar': len(ctx.sc.cases),
                               'point': len(ctx.pt.cases), 'boundary': len(ctx.bd.cases),
-                              'scalar_boundary': len(ctx.sb.cases)}
+                              'scalar_boundary': len(ctx.sb.cases),
+                              'internal_extras': len(ctx.arr_int.cases) + len(ctx.sc_int.cases)
+                              + len(ctx.bd_int.cases) + len(ctx.sb_int.cases)}
 
 
 def replay(rep, rp):
